@@ -76,6 +76,40 @@ def packlib_case(cid: str, inst, rng: random.Random, workdir) -> dict:
     return rec
 
 
+def packing_log_case(cid: str, inst, rng: random.Random, workdir) -> dict:
+    """A tiny real run on `inst` writes its log; the packing in the log, read back with Packing.from_log(file, inst),
+    must be the best packing of the run (and the RESULT_Y section must be its flattened matrix)."""
+    from moptipyapps.binpacking2d import experiment as bexp
+    from moptipyapps.binpacking2d.packing import Packing
+    from .c02 import objective_classes
+    enc = rng.choice([bp._mods()[1], bp._mods()[2]])
+    ex = bexp.rls(inst, enc, rng.choice(objective_classes()))
+    ex.set_max_fes(rng.choice([4, 12]))
+    log = workdir / f"{cid}.txt"
+    ex.set_rand_seed(rng.randrange(1, 1 << 40)).set_log_file(str(log))
+    with ex.execute() as proc:
+        y = ex._solution_space.create()
+        proc.get_copy_of_best_y(y)
+    rows = bp.rows_of(y)
+    text = log.read_text()
+    sec = text.split("BEGIN_RESULT_Y\n")[1].split("\nEND_RESULT_Y")[0] if "BEGIN_RESULT_Y" in text else ""
+    try:
+        tok = [small(int(v)) for v in sec.split("\n\n")[0].replace("\n", ";").split(";") if v.strip() != ""]
+    except ValueError:
+        tok = []
+    rec = {"id": cid, "kind": "rows", "what": "packing-log", "orig": rows, "tok": tok, "ok": 1, "back": rows,
+           "instance": inst.to_compact_str()}
+    try:
+        back = Packing.from_log(str(log), inst)
+        rec["back"] = bp.rows_of(back)
+        if back.instance is not inst or int(back.n_bins) != int(y.n_bins):
+            rec["back"] = [[-1] * 6 for _ in rows]      # a packing bound to another instance / bin count
+    except (ValueError, TypeError, KeyError, IndexError) as ex_:
+        rec["ok"] = 0
+        rec["error"] = f"{type(ex_).__name__}: {str(ex_)[:160]}"
+    return rec
+
+
 def rows_case(cid: str, what: str, orig: list, text: str, parse) -> dict:
     first = text.lstrip().split("\n\n")[0] if what != "packing" else text
     try:
@@ -152,6 +186,7 @@ def run(prop: str, tier: str, seed: int) -> int:
     rep.add_mc("MC_Text: grammars invert on all small instances / matrices", res)
     cases = []
     pl_dir = tlc.work_dir("packlib")
+    n_logs = 0
     # ---- instances
     n_i = {"quick": 300, "thorough": 3000}[tier]
     for k in range(n_i):
@@ -192,6 +227,12 @@ def run(prop: str, tier: str, seed: int) -> int:
             y.n_bins = st["nb"]
             cases.append(rows_case(f"pack-{k}", "packing", st["rows"], sp.to_str(y), sp.from_str))
             rep.family("packing-texts", 1, 1)
+            if n_logs < {"quick": 12, "thorough": 80}[tier]:
+                # the same through a real log file; every third instance carries the NAME of a shipped instance
+                li = inst if n_logs % 3 else bp.make_instance(W, H, items, name=rng.choice(["a01", "beng03", "cl01_020_01"]))
+                cases.append(packing_log_case(f"packlog-{k}", li, rng, pl_dir))
+                rep.family("packing-logs(own instances)", 1, 1)
+                n_logs += 1
     from moptipyapps.binpacking2d.instance import Instance
     for nm in rng.sample(list(Instance.list_resources()), {"quick": 25, "thorough": 200}[tier]):
         cases.append(inst_case(f"shipped-{nm}", Instance.from_resource(nm)))
